@@ -372,6 +372,33 @@ class DynSymRef(Ref):
         return res
 
 
+_MECH = [
+    ("link-time address in slot", "abs"), ("RELATIVE addend", "relative"),
+    ("IRELATIVE resolver address", "irelative"), ("static TP offset in slot", "tpoff"),
+    ("static DTP offset in slot", "dtpoff"), ("DTP offset in GD pair", "dtpoff"),
+    ("TPOFF64 addend", "tpoff-addend"), ("address of PLT stub", "pltaddr"),
+    ("absolute 32-bit", "abs32"), ("GOT-base-relative", "gotoff"),
+    ("PC-relative to PLT stub", "to-plt"), ("branch to PLT stub", "to-plt"),
+    ("PC-relative to GOT slot", "to-got"), ("ADRP to GOT page", "to-got"),
+    ("LDR from GOT slot", "to-got"), ("relaxed GD->IE", "relaxed-to-got"),
+    ("relaxed GOT load: absolute", "relaxed-abs32"), ("relaxed GOT load: PC-relative", "relaxed-pcrel"),
+    ("relaxed IE->LE", "relaxed-tpoff"), ("relaxed GD->LE", "relaxed-tpoff"),
+    ("relaxed GOT", "relaxed-imm"), ("PC-relative", "pcrel"), ("TP offset", "tpoff"),
+    ("DTP offset", "dtpoff"), ("branch immediate", "imm"), ("ADRP page", "imm"),
+    ("lo12 immediate", "imm"), ("ADR immediate", "imm"),
+]
+
+
+def mech_of(how):
+    """Short slug of the mechanism through which a reference is materialised (for keys)."""
+    if how.startswith("symbolic "):
+        return "dyn-" + how[len("symbolic "):].replace("R_X86_64_", "").replace("R_AARCH64_", "")
+    for prefix, slug in _MECH:
+        if how.startswith(prefix):
+            return slug
+    return "other"
+
+
 Site = namedtuple("Site", "obj secname secidx offset rtype rname symname symkind addend addr refs "
                   "unclassified")
 
